@@ -213,7 +213,13 @@ pub fn t234(ctx: &mut Ctx, ps: &mut Parsers, input: &str, ext: u32, conv: &str, 
             (format!("{}[- c -]{}", &input[..ws.1], &input[ws.1..]), "left_edge"),
             (format!("{}[- c -]{}", &input[..ws.2], &input[ws.2..]), "right_edge"),
         ];
+        // the padded variant adds a U+0020 of its own: neutral only where the gap itself is made of U+0020 (runs of
+        // which collapse); next to a tab / NBSP / ideographic space only the two variants that add no blank are used
+        let plain_gap = input[ws.1..ws.2].chars().all(|c| c == ' ');
         for (t, v) in variants {
+            if v == "padded" && !plain_gap {
+                continue;
+            }
             judge(ctx, ps, &base, input, t, ext, conv, "T3_block_comment", &format!("{v}|{ctxname}"));
         }
     }
